@@ -61,7 +61,7 @@ func (s *service) Create(ctx context.Context, record kvs.Record) (string, error)
 		return r.Version, errors.ErrExist
 	}
 	record.Version = ulidutils.NewID()
-	s.recs[record.Key] = record
+	s.recs[record.Key] = record.Copy()
 	return record.Version, nil
 }
 
@@ -79,14 +79,15 @@ func (s *service) Get(ctx context.Context, key string) (kvs.Record, error) {
 			return kvs.Record{}, errors.ErrNotExist
 		}
 	}
-	return r, nil
+	// the caller gets its own copy, the stored Value and ExpiresAt are never shared
+	return r.Copy(), nil
 }
 
 func (s *service) Put(ctx context.Context, record kvs.Record) (kvs.Record, error) {
 	s.lock.Lock()
 	defer s.lock.Unlock()
 	record.Version = ulidutils.NewID()
-	s.recs[record.Key] = record
+	s.recs[record.Key] = record.Copy()
 	s.notifyWaiters(record.Key)
 	return record, nil
 }
@@ -96,7 +97,7 @@ func (s *service) PutMany(ctx context.Context, records []kvs.Record) error {
 	defer s.lock.Unlock()
 	for _, r := range records {
 		r.Version = ulidutils.NewID()
-		s.recs[r.Key] = r
+		s.recs[r.Key] = r.Copy()
 		s.notifyWaiters(r.Key)
 	}
 	return nil
@@ -119,7 +120,8 @@ func (s *service) GetMany(ctx context.Context, keys ...string) ([]*kvs.Record, e
 				continue
 			}
 		}
-		res[idx] = &r
+		c := r.Copy()
+		res[idx] = &c
 	}
 	return res, nil
 }
@@ -142,7 +144,7 @@ func (s *service) CasByVersion(ctx context.Context, record kvs.Record) (kvs.Reco
 		return kvs.Record{}, errors.ErrConflict
 	}
 	record.Version = ulidutils.NewID()
-	s.recs[record.Key] = record
+	s.recs[record.Key] = record.Copy()
 	s.notifyWaiters(record.Key)
 	return record, nil
 }
